@@ -59,7 +59,7 @@ Proof.
     rewrite <- inrange_fits by (eapply type_info_pos; eauto).
     destruct (is_inrange b sg v); [reflexivity | discriminate].
   - (* BCons *) intros id s IHs r IHr H. simpl in *. apply app_nil_inv in H as [H1 H2]. rewrite (IHs id), IHr; auto.
-  - (* CCons *) intros b IHb r IHr H. simpl in *. apply app_nil_inv in H as [H1 H2]. rewrite IHb, IHr; auto.
+  - (* CCons *) intros cid cv b IHb r IHr H. simpl in *. apply app_nil_inv in H as [H1 H2]. rewrite IHb, IHr; auto.
 Qed.
 Local Close Scope Z_scope.
 
@@ -133,7 +133,7 @@ Proof.
   - (* Goto *) intros l fs id H. simpl in *. eapply goto_sound; eauto.
   - (* BCons *) intros id s IHs r IHr fs sn isd H. simpl in *. apply app_nil_inv in H as [H1 H2].
     rewrite (IHs _ id H1). simpl. apply IHr; assumption.
-  - (* CCons *) intros b IHb r IHr fs H. simpl in *. apply app_nil_inv in H as [H1 H2]. rewrite IHb, IHr; auto.
+  - (* CCons *) intros cid cv b IHb r IHr fs H. simpl in *. apply app_nil_inv in H as [H1 H2]. rewrite IHb, IHr; auto.
 Qed.
 
 (* ================================================================== B. names *)
@@ -241,7 +241,7 @@ Proof.
     + (* Func *)
       assert (Hne' : nonempty (declare f (mksym QVar (Some (length ps)) (up_fun_id (s0 :: r0))) (s0 :: r0))) by discriminate.
       specialize (IHr _ Hne' H2). rewrite up_fun_id_declare, flat_declare in IHr. exact IHr.
-  - (* CCons *) intros b IHb r IHr ch Hne H. cbn [aname_cases rname_cases] in *.
+  - (* CCons *) intros cid cv b IHb r IHr ch Hne H. cbn [aname_cases rname_cases] in *.
     apply app_nil_inv in H as [H1 H2].
     assert (Hne' : nonempty (mkn false [] :: ch)) by discriminate.
     apply andb_true_iff. split; [exact (IHb _ Hne' H1) | exact (IHr _ Hne H2)].
@@ -320,13 +320,13 @@ Proof.
     destruct (Nat.ltb c' n || els) eqn:E; [|discriminate]. cbn [app] in H1.
     destruct (is_bnil r) eqn:Er; [|discriminate].
     rewrite (Hrel eq_refl). reflexivity.
-  - (* CCons *) intros b IHb r IHr ch n els c Hc H.
+  - (* CCons *) intros cid cv b IHb r IHr ch n els c Hc H.
     cbn [aflow_cases rflow_cases ncases] in *.
     apply app_nil_inv in H as [H1 H2].
     apply andb_true_iff. split.
     + rewrite <- (break_ok_plain (mkf false false false (Some (recorded_case c, n, els))) ch eq_refl eq_refl eq_refl).
       apply (IHb _ _); [|exact H1].
-      unfold block_rel. rewrite recorded_case_id. destruct r as [|b2 r2].
+      unfold block_rel. rewrite recorded_case_id. destruct r as [|cid2 cv2 b2 r2].
       * (* last case: c = n *) cbn [ncases] in Hc. intro Hx. apply orb_true_iff in Hx as [Hx|Hx]; [|exact Hx].
         apply Nat.ltb_lt in Hx. lia.
       * intros; reflexivity.
@@ -370,12 +370,12 @@ Proof.
     cbn [aflow_block rflow_block] in *. apply andb_true_iff in H as [H1 H2].
     destruct r; [|discriminate]. destruct (Hcc H1) as (c' & n & els & rest & -> & Hok).
     unfold fall_errs. rewrite Hok. reflexivity.
-  - (* CCons *) intros b IHb r IHr ch n els c Hc Hc1 H. cbn [aflow_cases rflow_cases ncases] in *.
+  - (* CCons *) intros cid cv b IHb r IHr ch n els c Hc Hc1 H. cbn [aflow_cases rflow_cases ncases] in *.
     apply andb_true_iff in H as [H1 H2].
     rewrite (IHr ch n els (S c)); [| lia | lia | exact H2]. rewrite app_nil_r.
-    apply (IHb (mkf false false false (Some (recorded_case c, n, els)) :: ch) (match r with CNil => els | CCons _ _ => true end)); [|exact H1].
+    apply (IHb (mkf false false false (Some (recorded_case c, n, els)) :: ch) (match r with CNil => els | CCons _ _ _ _ => true end)); [|exact H1].
     intro Hft. exists (recorded_case c), n, els, ch. split; [reflexivity|].
-    destruct r as [|b2 r2].
+    destruct r as [|cid2 cv2 b2 r2].
     + rewrite Hft. apply orb_true_r.
     + cbn [ncases] in Hc. apply orb_true_iff. left. apply Nat.ltb_lt.
       unfold recorded_case. destruct gen_switchcase_index_is_loop_var; lia.
@@ -383,12 +383,45 @@ Qed.
 
 (* ================================================================== whole programs *)
 Lemma analyzer_ok_parts : forall p, analyzer_ok p = true ->
-  off_flow p = [] /\ off_names p = [] /\ off_labels p = [] /\ off_consts p = [].
+  off_flow p = [] /\ off_names p = [] /\ off_labels p = [] /\ off_consts p = [] /\ off_switch p = [].
 Proof.
   intros p H. unfold analyzer_ok, offenders in H.
-  destruct (off_flow p ++ off_names p ++ off_labels p ++ off_consts p) eqn:E; [|discriminate].
-  apply app_nil_inv in E as [E1 E]. apply app_nil_inv in E as [E2 E]. apply app_nil_inv in E as [E3 E4]. auto.
+  destruct (off_flow p ++ off_names p ++ off_labels p ++ off_consts p ++ off_switch p) eqn:E; [|discriminate].
+  apply app_nil_inv in E as [E1 E]. apply app_nil_inv in E as [E2 E]. apply app_nil_inv in E as [E3 E].
+  apply app_nil_inv in E as [E4 E5]. auto.
 Qed.
+
+(* ---- E. switch case values *)
+Lemma dup_errs_sound : forall cs seen, dup_errs seen cs = [] ->
+  (forall v, In v (case_values cs) -> existsb (Nat.eqb v) seen = false) /\ nodupb (case_values cs) = true.
+Proof.
+  induction cs as [|cid v b r IH]; intros seen H; cbn [dup_errs case_values nodupb] in *.
+  - split; [intros v [] | reflexivity].
+  - apply app_nil_inv in H as [H1 H2]. destruct (existsb (Nat.eqb v) seen) eqn:E; [discriminate|].
+    destruct (IH (v :: seen) H2) as [Ha Hb]. split.
+    + intros w [->|Hw]; [exact E|]. specialize (Ha w Hw). cbn [existsb] in Ha.
+      apply orb_false_iff in Ha as [_ Ha]. exact Ha.
+    + rewrite Hb, andb_true_r. apply negb_true_iff.
+      destruct (existsb (Nat.eqb v) (case_values r)) eqn:E2; [|reflexivity].
+      apply existsb_exists in E2 as (w & Hw & Hvw). apply Nat.eqb_eq in Hvw. subst w.
+      specialize (Ha v Hw). cbn [existsb] in Ha. rewrite Nat.eqb_refl in Ha. discriminate.
+Qed.
+
+Lemma switch_sound :
+  (forall s, asw_stmt s = [] -> rsw_stmt s = true) /\
+  (forall b, asw_block b = [] -> rsw_block b = true) /\
+  (forall cs, asw_cases cs = [] -> rsw_cases cs = true).
+Proof.
+  apply sbc_mutind; try (intros; reflexivity); try (intros; simpl in *; auto; fail).
+  - (* If *) intros t IHt e IHe H. simpl in *. apply app_nil_inv in H as [H1 H2]. rewrite IHt, IHe; auto.
+  - (* Switch *) intros cs IHc els d IHd H. simpl in *. apply app_nil_inv in H as [H1 H]. apply app_nil_inv in H as [H2 H3].
+    rewrite (proj2 (dup_errs_sound cs [] H1)), IHc, IHd; auto.
+  - (* BCons *) intros id s IHs r IHr H. simpl in *. apply app_nil_inv in H as [H1 H2]. rewrite IHs, IHr; auto.
+  - (* CCons *) intros cid cv b IHb r IHr H. simpl in *. apply app_nil_inv in H as [H1 H2]. rewrite IHb, IHr; auto.
+Qed.
+
+Theorem switch_sound_thm : forall p, off_switch p = [] -> rule_switch p = true.
+Proof. intros p H. exact (proj1 (proj2 switch_sound) p H). Qed.
 
 Theorem names_sound_thm : forall p, off_names p = [] -> rule_names p = true.
 Proof.
@@ -416,14 +449,14 @@ Qed.
 
 Theorem analyzer_sound : forall p, analyzer_ok p = true -> rule_ok p = true.
 Proof.
-  intros p H. destruct (analyzer_ok_parts p H) as (H1 & H2 & H3 & H4). unfold rule_ok.
-  rewrite (flow_sound_thm p H1), (names_sound_thm p H2), (labels_sound_thm p H3), (consts_sound_thm p H4).
+  intros p H. destruct (analyzer_ok_parts p H) as (H1 & H2 & H3 & H4 & H5). unfold rule_ok.
+  rewrite (flow_sound_thm p H1), (names_sound_thm p H2), (labels_sound_thm p H3), (consts_sound_thm p H4), (switch_sound_thm p H5).
   reflexivity.
 Qed.
 
 (* regression witness of the repaired hole: switch sel() do case 1 then  case 2 then fallthrough end *)
 Definition witness_last_ft : block :=
-  BCons 1 (Switch (CCons BNil (CCons (BCons 2 Fallthrough BNil) CNil)) false BNil) BNil.
+  BCons 1 (Switch (CCons 3 1 BNil (CCons 4 2 (BCons 2 Fallthrough BNil) CNil)) false BNil) BNil.
 
 Example witness_last_ft_rejected : offenders witness_last_ft = [(2%nat, KFall)] /\ rule_ok witness_last_ft = false.
 Proof. split; vm_compute; reflexivity. Qed.
@@ -432,7 +465,7 @@ Proof. split; vm_compute; reflexivity. Qed.
 Example sound_example :
   let p := BCons 1 (Local 1 QVar)
           (BCons 2 (Func 100 [2] (BCons 3 (While (BCons 4 (Use 2) (BCons 5 Break BNil))) BNil))
-          (BCons 6 (Switch (CCons (BCons 7 (Call 100 1) (BCons 8 Fallthrough BNil)) (CCons (BCons 9 (Assign 1) BNil) CNil)) false BNil)
+          (BCons 6 (Switch (CCons 12 1 (BCons 7 (Call 100 1) (BCons 8 Fallthrough BNil)) (CCons 13 2 (BCons 9 (Assign 1) BNil) CNil)) false BNil)
           (BCons 10 (Label 1) (BCons 11 (Goto 1) BNil)))) in
   analyzer_ok p = true /\ rule_ok p = true.
 Proof. vm_compute. auto. Qed.
@@ -493,7 +526,7 @@ Proof.
     destruct s; try exact (IHr _ Hne H2).
     + apply IHr; [discriminate|]. rewrite up_fun_id_declare, flat_declare. exact H2.
     + apply IHr; [discriminate|]. rewrite up_fun_id_declare, flat_declare. exact H2.
-  - (* CCons *) intros b IHb r IHr ch Hne H. cbn [aname_cases rname_cases] in *. apply andb_true_iff in H as [H1 H2].
+  - (* CCons *) intros cid cv b IHb r IHr ch Hne H. cbn [aname_cases rname_cases] in *. apply andb_true_iff in H as [H1 H2].
     rewrite (IHb (mkn false [] :: ch)); [|discriminate | exact H1].
     rewrite (IHr ch Hne H2). reflexivity.
 Qed.
